@@ -192,4 +192,30 @@ def extra_checks(tier, seed):
                          case=c, model_obs=m, impl_obs=i)))
     else:
         out.append(('unqueued_callbacks_that_trigger', True, detail, {}))
+    # the systematic (setup, source, destination, scope) catalogue of C03 under this property's replaying oracle
+    # (E = entered-and-not-exited set, order of exits / enters, nothing entered while active ...): every state of the
+    # catalogue has its own enter and exit callback
+    import random
+    import framework as F
+    allc = hsm.systematic_cases()
+    cases = allc if tier != 'quick' else random.Random('C02s-%d' % seed).sample(allc, 2000)
+    for k, c in enumerate(cases):
+        c['cls'] = CLASSES[k % len(CLASSES)]
+    io = F.run_impl('hsm', 'impl_hsm', cases)
+    fail = None
+    known = 0
+    for c, i in zip(cases, io):
+        msg = oracle(c, i) if isinstance(i, list) else 'harness error: %r' % (i,)
+        if msg:
+            if classify_known(c, None, i):
+                known += 1
+            elif fail is None:
+                fail = (c, i, msg)
+    detail = dict(catalogue=len(allc), cases=len(cases), known_finding_cases=known, oracle_failures=0 if fail is None else 1)
+    if fail:
+        c, i, msg = fail
+        out.append(('systematic_catalogue_oracle', False, detail,
+                    dict(kind='oracle', stream='systematic catalogue', case=c, impl_obs=i, failing_clause=msg)))
+    else:
+        out.append(('systematic_catalogue_oracle', True, detail, {}))
     return out
